@@ -304,6 +304,10 @@ def _canon_capacity(e, cls):
 
 def run_siblings(ck: Checker):
     ck.rule('C16-2', 'sibling language: per feeder iteration, per feeder exit and per consumer iteration the async implementation performs the same abstract event sequences as the sync one (after erasing async/await and the Future class) (SIBLING)', minimum=3)
+    ck.rule('C16-9', 'the sync parmap over a coroutine worker gives the answers of its siblings on every pass: its per-pass state (stop flag, event loop) is created by __iter__ (C01-12) — kept on the object, the flag set at the end of the first pass makes every later pass hang where Parmapper and AsyncParmapper deliver the full list')
+    from .c01 import check_per_pass_state
+
+    check_per_pass_state(ck, 'C16-9')
     ck.rule('C16-3', 'delegation maps: Server.stream / AsyncServer.stream and the four parmapper classes hand the same flags to fifo_stream / async_fifo_stream (AGREE)', minimum=6)
     ms = fifo.discover(ck.repo, ck.repo.func(STREAMER, 'fifo_stream'))
     ma = fifo.discover(ck.repo, ck.repo.func(STREAMER, 'async_fifo_stream'))
